@@ -46,7 +46,7 @@ def flatten(asl, notes=None):
 
     def one(name, st):
         t = st["Type"]
-        if t not in ("Pass", "Task", "Wait", "Succeed", "Fail", "Parallel", "Map"):
+        if t not in ("Pass", "Task", "Wait", "Succeed", "Fail", "Parallel", "Map", "Choice"):
             raise Unsupported("state type %s" % t)
         for k in ("ItemsPath", "ItemSelector"):
             if k in st:
@@ -58,7 +58,11 @@ def flatten(asl, notes=None):
                 notes.add("abstract-data")
         r = {"type": t, "next": st.get("Next", ""), "end": bool(st.get("End", False)) or t in ("Succeed", "Fail"),
              "fn": "", "branches": [], "proc": "", "mc": 0, "retrymax": -1, "retryerrs": [], "catchnext": "", "catcherrs": [],
-             "result": None, "error": ""}
+             "result": None, "error": "", "rules": [], "dflt": ""}
+        if t == "Choice":
+            notes.add("choice")
+            r["rules"] = [dict(choice_rule(c), next=c["Next"]) for c in st.get("Choices", [])]
+            r["dflt"] = st.get("Default") or ""
         if t == "Task":
             res = st.get("Resource", "")
             if not res.startswith(FN):
@@ -97,16 +101,18 @@ def flatten(asl, notes=None):
         out[name] = r
     for n, s in asl["States"].items():
         one(n, s)
+    if "choice" in notes and "abstract-data" in notes:
+        raise Unsupported("a Choice in a machine whose data the model carries abstractly")
     for n, r in out.items():
-        if not r["end"] and not r["next"]:
+        if not r["end"] and not r["next"] and r["type"] != "Choice":
             raise Unsupported("a state with neither Next nor End")
-        for x in (r["next"], r["catchnext"], r["proc"]) + tuple(r["branches"]):
+        for x in (r["next"], r["catchnext"], r["proc"], r["dflt"]) + tuple(r["branches"]) + tuple(c["next"] for c in r["rules"]):
             if x and x not in out:
                 raise Unsupported("a transition to a state that does not exist")
     if asl.get("StartAt") not in out:
         raise Unsupported("StartAt names no state")
     # a machine that can loop has no finite model here (the history counter grows for ever)
-    nxt = {n: [x for x in (r["next"], r["catchnext"]) if x] for n, r in out.items()}
+    nxt = {n: [x for x in (r["next"], r["catchnext"], r["dflt"]) + tuple(c["next"] for c in r["rules"]) if x] for n, r in out.items()}
     seen, stack = set(), set()
 
     def cyc(n):
@@ -124,13 +130,45 @@ def flatten(asl, notes=None):
     return out
 
 
+CMP = {"NumericEquals": "eq", "StringEquals": "eq", "BooleanEquals": "eq", "NumericGreaterThan": "gt", "NumericLessThan": "lt",
+       "NumericGreaterThanEquals": "ge", "NumericLessThanEquals": "le", "IsPresent": "present"}
+
+
+def choice_rule(c):
+    """A Choice rule in the model's rule language (Engine.tla, RuleHolds): typed comparisons of the value at a path of
+    member names, combined with And / Or / Not."""
+    for k, kind in (("And", "and"), ("Or", "or")):
+        if k in c:
+            return {"kind": kind, "subs": [choice_rule(x) for x in c[k]]}
+    if "Not" in c:
+        return {"kind": "not", "subs": [choice_rule(c["Not"])]}
+    ops = [k for k in c if k in CMP]
+    if len(ops) != 1 or not isinstance(c.get("Variable"), str) or not re.fullmatch(r"\$(\.[A-Za-z_]\w*)+", c["Variable"]):
+        raise Unsupported("Choice rule %s" % json.dumps(c)[:80])
+    v = c[ops[0]]
+    if isinstance(v, float) or not isinstance(v, (bool, int, str)):
+        raise Unsupported("Choice literal %r" % (v,))
+    return {"kind": "cmp", "path": c["Variable"].split(".")[1:], "op": CMP[ops[0]], "val": v}
+
+
+def rule_tla(c):
+    if c["kind"] == "cmp":
+        body = 'kind |-> "cmp", path |-> %s, op |-> %s, val |-> %s' % (tla_val(c["path"]), tla_str(c["op"]), tla_val(c["val"]))
+    else:
+        body = 'kind |-> %s, subs |-> <<%s>>' % (tla_str(c["kind"]), ", ".join(rule_tla(x) for x in c["subs"]))
+    if "next" in c:
+        body += ", next |-> " + tla_str(c["next"])
+    return "[" + body + "]"
+
+
 def rec_tla(r):
     res = "[set |-> FALSE, v |-> 0]" if r["result"] is None else "[set |-> TRUE, v |-> %s]" % tla_val(r["result"])
     return ("[type |-> %s, next |-> %s, end |-> %s, fn |-> %s, branches |-> %s, proc |-> %s, mc |-> %d, retrymax |-> %d, "
-            "retryerrs |-> %s, catchnext |-> %s, catcherrs |-> %s, result |-> %s, error |-> %s]") % (
+            "retryerrs |-> %s, catchnext |-> %s, catcherrs |-> %s, result |-> %s, error |-> %s, rules |-> <<%s>>, dflt |-> %s]") % (
         tla_str(r["type"]), tla_str(r["next"]), tla_val(r["end"]), tla_str(r["fn"]), tla_val(r["branches"]), tla_str(r["proc"]),
         r["mc"], r["retrymax"], "{" + ", ".join(tla_str(e) for e in r["retryerrs"]) + "}", tla_str(r["catchnext"]),
-        "{" + ", ".join(tla_str(e) for e in r["catcherrs"]) + "}", res, tla_str(r["error"]))
+        "{" + ", ".join(tla_str(e) for e in r["catcherrs"]) + "}", res, tla_str(r["error"]),
+        ", ".join(rule_tla(c) for c in r["rules"]), tla_str(r["dflt"]))
 
 
 def outcome_name(o):
